@@ -61,6 +61,7 @@ inductive Cb
   | remove (k : Int) (old : Int) (m : AMap)
   | clear (old : AMap)
   | syncedV (v : Int)
+  | syncedU                       -- `on_synced(&())` of an event downlink
   | event (v : Int)
   | set (old : Option Int) (new : Int)
   deriving DecidableEq, Repr
@@ -413,6 +414,24 @@ def VHostedIO.step (c : Cfg) (s : VHostedIO) : IoOp VOp → VHostedIO × List Cb
     else ({ core := { s.core with fin := some .ok }, stopRx := false }, [])
   | .closeOut => (s, [])
 
+/-! ### Hosted event downlink (`hosted/event/mod.rs`)
+
+No replica; it is here because the public downlink *builders* (`HandlerContext::event_downlink_builder`) are exercised for all
+three kinds. The channel has the same EOF / failure / stop / dropped-handle / `connect` arms as the hosted value downlink
+(without a value to clear), so `VHostedIO` is reused with `val` staying `none`; only `next_event` differs. -/
+
+/-- `HostedEventDownlink::next_event` for `Ok(notification)` -/
+def ehNext (c : Cfg) (s : VHosted) : VNote → VHosted × List Cb
+  | .linked => ({ s with dl := if s.dl = .unlinked then .linked else s.dl }, [.linked])
+  | .synced => ({ s with dl := .synced }, [.syncedU])
+  | .ev b => (s, if s.dl = .synced || c.ews then [.event b] else [])
+  | .unlinked => ({ dl := dlAfterUnlinked c, val := none, fin := if c.tou then some .ok else none }, [.unlinked])
+
+def EHostedIO.step (c : Cfg) (s : VHostedIO) : IoOp VOp → VHostedIO × List Cb
+  | .op (.note n) =>
+    if s.core.fin.isSome then (s, []) else ({ s with core := (ehNext c s.core n).1 }, (ehNext c s.core n).2)
+  | o => VHostedIO.step c s o
+
 /-! ### Line protocol -/
 
 def showMap (m : AMap) : String :=
@@ -431,6 +450,7 @@ def Cb.render : Cb → String
   | .remove k v m => s!"on_remove {k} {v} {showMap m}"
   | .clear m => s!"on_clear {showMap m}"
   | .syncedV v => s!"on_synced {v}"
+  | .syncedU => "on_synced"
   | .event v => s!"on_event {v}"
   | .set old v => s!"on_set {showOpt old} {v}"
 
@@ -481,6 +501,7 @@ inductive Sys
   | mh (c : Cfg) (s : MHostedIO)
   | vc (c : Cfg) (s : VClientIO)
   | vh (c : Cfg) (s : VHostedIO)
+  | eh (c : Cfg) (s : VHostedIO)
   deriving Repr
 
 /-- `drop-handle | close-out | stop`, else the base alphabet -/
@@ -496,9 +517,12 @@ def parseBit : String → Option Bool
   | "1" => some true
   | _ => none
 
+/-- `new <client|hosted> <map|value|event> <ews> <tou> [options]`. The options (`path=..`: through which public builder
+path the harness constructs a hosted downlink; `big`: values padded to 5–20 KB on the wire, 512-byte notification channel)
+do not concern the model: whatever the construction path and the size of the bodies, the behaviour must be the same. -/
 def parseNew (ws : List String) : Option Sys :=
   match ws with
-  | ["new", imp, kind, ews, tou] =>
+  | "new" :: imp :: kind :: ews :: tou :: _opts =>
     match parseBit ews, parseBit tou with
     | some e, some t =>
       let c : Cfg := { ews := e, tou := t }
@@ -506,6 +530,7 @@ def parseNew (ws : List String) : Option Sys :=
       else if imp = "hosted" && kind = "map" then some (.mh c {})
       else if imp = "client" && kind = "value" then some (.vc c {})
       else if imp = "hosted" && kind = "value" then some (.vh c {})
+      else if imp = "hosted" && kind = "event" then some (.eh c {})
       else none
     | _, _ => none
   | _ => none
@@ -545,6 +570,17 @@ def Sys.line (s : Sys) (ws : List String) : Sys × String :=
       else (s, "bad-op")
     | some .closeOut => (s, "bad-op")
     | some op => (.vh c (st.step c op).1, outOf st.core.fin (st.step c op).1.core.fin (st.step c op).2)
+    | none => (s, "bad-op")
+  | .eh c st =>
+    match parseIo parseVOp ws with
+    | some (.op .reconnect) =>
+      if st.core.fin.isSome then
+        (.eh c (EHostedIO.step c st (.op .reconnect)).1, if c.tou || !st.stopRx then "refused" else "ok")
+      else (s, "bad-op")
+    | some .closeOut => (s, "bad-op")
+    | some (.op (.write _)) => (s, "bad-op")       -- an event downlink cannot write
+    | some op =>
+      (.eh c (EHostedIO.step c st op).1, outOf st.core.fin (EHostedIO.step c st op).1.core.fin (EHostedIO.step c st op).2)
     | none => (s, "bad-op")
 
 def machineStep (s : Option Sys) (line : String) : Option Sys × String :=
